@@ -14,16 +14,27 @@ def short_dyadics(rng, n, lo, hi, bits=10):
   return (np.round(v / q) * q).astype(np.float32)
 
 
-def grad_of(q, xs):
+def grad_of(q, xs, w=None):
+  """(value, d sum(w*y) / dx / w).  `w`: upstream gradient, powers of two (division exact); with a
+  non-constant upstream gradient a leak through a reduction (K.max of an auto scale) cannot cancel."""
   import tensorflow as tf
   x = tf.constant(xs)
   with tf.GradientTape() as tape:
     tape.watch(x)
     y = q(x)
-  g = tape.gradient(y, x)
+    loss = y if w is None else tf.reduce_sum(y * tf.constant(w))
+  g = tape.gradient(loss, x)
   if g is None:
     g = tf.zeros_like(x)
-  return np.asarray(y, dtype=np.float32), np.asarray(g, dtype=np.float32)
+  g = np.asarray(g, dtype=np.float32)
+  if w is not None:
+    g = (g / w).astype(np.float32)
+  return np.asarray(y, dtype=np.float32), g
+
+
+def is_po2(v):
+  m, _ = np.frexp(np.asarray(v, dtype=np.float64))
+  return bool(np.all(m == 0.5))
 
 
 def run(run: core.Run, tier: str):
@@ -35,8 +46,14 @@ def run(run: core.Run, tier: str):
       "every differentiable-by-design quantizer class x option combinations (use_ste, qnoise_factor in "
       "{0,1/4,1}, slopes, relu_upper_bound / is_quantized_clip, max_value, constant / auto scales) x inputs: "
       "each linear piece's interior, every kink and clip bound +-1,2 ulp, clipped regions, short-dyadic random "
-      "points; tf.GradientTape (value, gradient) compared exactly with the Lean dual-number model; the clause "
-      "oracle checks gradient == surrogate' on the real code; non-trivial = distinct (configuration, input)")
+      "points; data-dependent scales (quantized_bits 'auto' / 'auto_po2' / post_training_scale x integer in "
+      "{-1,0,1,2,3} x keep_negative x use_ste x qnoise_factor; quantized_linear 'auto' / 'auto_po2' incl. 1 bit and "
+      "unsigned; binary / ternary) on 1-D, per-channel 2-D and 4-D tensors whose column extremes make the scale an "
+      "exact power of two, with a non-constant power-of-two upstream gradient; "
+      "tf.GradientTape (value, gradient) compared exactly with the Lean dual-number model (the implementation's "
+      "scale is an oracle input of the auto-scaled transcriptions); the clause oracle checks on the real code "
+      "gradient == surrogate' and value == x_u + qnoise_factor * (q(x) - x_u); "
+      "non-trivial = distinct (configuration, input)")
   F32 = lambda v: F(float(np.float32(v)))
   lines, meta = [], []
 
@@ -55,13 +72,39 @@ def run(run: core.Run, tier: str):
     a = a[(a == 0) | (np.abs(a) >= np.float32(1.1754944e-38))]
     return np.unique(a)
 
-  def add(op, cfg, q, xs, extra=None, label=None, surrogate=None, key=None):
-    ys, gs = grad_of(q, xs)
+  def add(op, cfg, q, xs, extra=None, label=None, surrogate=None, key=None, pre=None, mix=None):
+    """pre = (ys, gs) already measured (tensors of rank > 1 are flattened by the caller);
+    mix = (qf, y1, xu): y1 = output of the SAME configuration on the same tensor at qnoise_factor 1
+    (straight-through form), xu = surrogate kind -> clause  y == x_u + qf * (y1 - x_u)"""
+    ys, gs = pre if pre is not None else grad_of(q, xs)
     line = {"op": op, "cfg": cfg, "xs": core.enc_list(xs)}
     if extra:
       line.update(extra)
     lines.append(line)
-    meta.append(dict(op=op, label=label, xs=xs, ys=ys, gs=gs, surrogate=surrogate, key=key or {}))
+    meta.append(dict(op=op, label=label, xs=xs, ys=ys, gs=gs, surrogate=surrogate, key=key or {}, mix=mix))
+
+  def po2w(shape):
+    return np.exp2(rng.integers(-1, 3, size=shape)).astype(np.float32)
+
+  def crafted(ncol, nrow, top, ks, lim=None, signed_max=None):
+    """tensor (nrow, ncol) of c * 2^k, c multiples of 1/8: per column the extreme element is exactly
+    `top` * 2^k (so that the 'auto' scale is a power of two and every float32 operation of the
+    branch is exact), plus zero, rounding ties (k + 1/2), near-extreme values and random residues"""
+    lim = top if lim is None else lim
+    cols = []
+    for j in range(ncol):
+      c = rng.integers(-int(8 * lim), int(8 * lim) + 1, size=nrow) / 8.0
+      c[1] = 0.0
+      c[2] = np.floor(lim) - 0.5
+      c[3] = -(np.floor(lim / 2) + 0.5)
+      c[4] = -(lim - 0.125)
+      c[5] = 0.375
+      c = np.clip(c, -lim, lim)
+      if lim == top:
+        c[np.abs(c) == top] = top - 1       # a single extreme element
+      c[0] = top if (signed_max or j % 2 == 0) else -top
+      cols.append(c * 2.0 ** ks[j % len(ks)])
+    return np.stack(cols, axis=1).astype(np.float32)
 
   qfs = [F(1), F(0), F(1, 4)]
   nb = 3 if tier == "quick" else 6
@@ -78,29 +121,85 @@ def run(run: core.Run, tier: str):
         xs = pts([lo, hi, 0.0, 0.5 * step, 1.5 * step], 2.0 ** integer * 1.2, exact_only=(qf not in (0, 1)))
         cfg = dict(bits=bits, integer=integer, symmetric=sym, keep_negative=kn,
                    alpha=None if alpha is None else core.rj(alpha))
+        q1 = Q.quantized_bits(bits, integer, sym, keep_negative=kn, alpha=alpha)
         add("bits", cfg, q, xs, dict(use_ste=ste, qf=core.rj(qf)),
             label="quantized_bits(%d,%d,%d,keep_negative=%d,alpha=%s,use_ste=%s,qnoise_factor=%s)"
             % (bits, integer, sym, kn, alpha, ste, qf),
             surrogate=("scaled_identity", (F(1) if ste else 1 - qf)),
-            key=dict(cls="quantized_bits", use_ste=ste, qf_is_1=(qf == 1)))
-  # ---- quantized_bits with data-dependent scale: gradient must not leak through the scale
-  for alpha in ("auto", "auto_po2"):
-    for ste in (True, False):
-      q = Q.quantized_bits(4, 0, 1, alpha=alpha, use_ste=ste)
-      xs = short_dyadics(rng, 24, -2, 2)
-      ys, gs = grad_of(q, xs)
-      want = 1.0 if ste else 0.0
-      for x, g in zip(xs, gs):
-        run.case(("bits_auto", alpha, ste, float(x)))
-        run.compared += 1
-        if float(g) != want:
-          run.violate("grad_ste", dict(cls="quantized_bits", alpha=alpha, use_ste=ste, qf_is_1=True),
-                      {"config": "quantized_bits(4,0,1,alpha=%s,use_ste=%s)" % (alpha, ste), "x": float(x),
-                       "grad": float(g), "expected": want}, mirrored=False)
-      if not ste:
-        run.violate("nonzero", dict(cls="quantized_bits", use_ste=False, qf_is_1=True),
-                    {"config": "quantized_bits(4,0,1,alpha=%s,use_ste=False)" % alpha,
-                     "note": "gradient identically zero"}, mirrored=True)
+            key=dict(cls="quantized_bits", use_ste=ste, qf_is_1=(qf == 1)),
+            mix=(qf, np.asarray(q1(tf.constant(xs)), dtype=np.float32), "identity"))
+  # ---- quantized_bits with a data-dependent scale (alpha 'auto' / 'auto_po2' / post_training_scale):
+  # the branch normalises x / m_i and restores m_i * x, so every `integer` is generated; per-channel
+  # (2-D) and single (1-D) scales; both return forms; all three noise factors; (value, gradient) tied to
+  # qbitsAutoD with the implementation's scale as an oracle input, and judged by the clauses directly.
+  shapes_bk = [(4, 1), (3, 1), (6, 0), (2, 1), (5, 0), (8, 1), (3, 0)]
+  ci = 0
+  for alpha in ("auto", "auto_po2", "post_training_scale"):
+    for integer in (0, 1, 2, 3, -1):
+      for kn_pick in (0, 1):
+        cand = [bk for bk in shapes_bk if bk[1] == kn_pick]
+        bits, kn = cand[(ci // 2) % len(cand)]
+        ci += 1
+        L = 2 ** (bits - 1) - 1
+        ub = bits - kn
+        rank2 = (ci % 3 != 0)
+        ks = [int(k) for k in rng.integers(-3, 4, size=3)]
+        if alpha == "post_training_scale":
+          # frozen scale: elements beyond the largest code saturate
+          x2 = crafted(3 if rank2 else 1, 12, L, ks, lim=2 * L)
+          pts_scale = np.array([[2.0 ** (k - integer + ub) for k in (ks if rank2 else ks[:1])]], dtype=np.float32)
+          kw = dict(alpha="auto_po2", post_training_scale=pts_scale if rank2 else pts_scale[0])
+        else:
+          x2 = crafted(3 if rank2 else 1, 12, L, ks)
+          kw = dict(alpha=alpha)
+        if not rank2:
+          x2 = x2[:, 0]
+        w = po2w(x2.shape)
+        q1 = Q.quantized_bits(bits, integer, 1, keep_negative=kn, **kw)
+        y1 = np.asarray(q1(tf.constant(x2)), dtype=np.float32)
+        for ste in (True, False):
+          for qf in qfs:
+            q = Q.quantized_bits(bits, integer, 1, keep_negative=kn, use_ste=ste, qnoise_factor=float(qf), **kw)
+            ys, gs = grad_of(q, x2, w)
+            S = np.broadcast_to(np.asarray(q.scale, dtype=np.float32), x2.shape if rank2 else (1,) + x2.shape)
+            S = S.reshape(x2.shape)
+            label = ("quantized_bits(%d,%d,1,keep_negative=%d,alpha=%s,use_ste=%s,qnoise_factor=%s) on a %s tensor"
+                     % (bits, integer, kn, alpha, ste, qf, "x".join(map(str, x2.shape))))
+            if not is_po2(S):
+              run.count("bits_auto_scale_not_po2")
+            add("bits_auto", dict(bits=bits, integer=integer, keep_negative=bool(kn)), q, x2.ravel(),
+                dict(use_ste=ste, qf=core.rj(qf), ss=core.enc_list(S.ravel())), label=label,
+                surrogate=("scaled_identity", (F(1) if ste else 1 - qf)),
+                key=dict(cls="quantized_bits", alpha=alpha, use_ste=ste, qf_is_1=(qf == 1)),
+                pre=(ys.ravel(), gs.ravel()), mix=(qf, y1.ravel(), "identity"))
+            run.count("bits_auto_integer_%d" % integer, x2.size)
+  # gradient-only (clause oracle, no model): generic data (the 'auto' scale is not a power of two), conv-kernel
+  # rank, scale_axis, elements_per_scale
+  for alpha, shape, kw in [("auto", (5, 4), {}), ("auto_po2", (2, 2, 3, 4), {}), ("auto", (2, 2, 3, 4), {}),
+                           ("auto_po2", (6, 4), dict(scale_axis=0)), ("auto", (24,), {}),
+                           ("auto_po2", (8, 4), dict(scale_axis=1, elements_per_scale=2))]:
+    for integer in (0, 2, 3):
+      for ste in (True, False):
+        for qf in (F(1), F(1, 4)):
+          q = Q.quantized_bits(5, integer, 1, alpha=alpha, use_ste=ste, qnoise_factor=float(qf), **kw)
+          xs = short_dyadics(rng, int(np.prod(shape)), -2.0 ** integer, 2.0 ** integer).reshape(shape)
+          w = po2w(shape)
+          ys, gs = grad_of(q, xs, w)
+          want = F(1) if ste else 1 - qf
+          label = "quantized_bits(5,%d,1,alpha=%s,use_ste=%s,qnoise_factor=%s%s) on a %s tensor" % (
+              integer, alpha, ste, qf, "".join(",%s=%s" % kv for kv in kw.items()), "x".join(map(str, shape)))
+          key = dict(cls="quantized_bits", alpha=alpha, use_ste=ste, qf_is_1=(qf == 1))
+          for x, g in zip(xs.ravel(), gs.ravel()):
+            run.case((label, float(x)))
+            run.compared += 1
+            if F(float(g)) != want:
+              run.violate("grad_ste", dict(key, kind="scaled_identity"),
+                          {"config": label, "x": float(x), "grad": float(g), "expected": str(want)}, mirrored=False)
+              break
+          if not np.any(gs != 0):
+            run.violate("nonzero", dict(cls="quantized_bits", use_ste=ste, qf_is_1=(qf == 1)),
+                        {"config": label, "note": "gradient identically zero"}, mirrored=True)
+          run.count("op_bits_auto_generic", xs.size)
   # ---- quantized_linear
   for bits, integer, sym, kn, alpha in [(4, 0, 1, 1, None), (3, 1, 0, 1, None), (4, 1, 1, 0, 0.5), (1, 0, 1, 1, None)]:
     for qf in qfs:
@@ -115,38 +214,43 @@ def run(run: core.Run, tier: str):
       xs = pts([lo, hi, 0.5 * qs, 1.5 * qs], max(abs(lo), abs(hi)) * 1.5 + qs, exact_only=(qf not in (0, 1)))
       cfg = dict(bits=bits, integer=integer, symmetric=sym, keep_negative=kn,
                  alpha=None if alpha is None else core.rj(alpha))
+      q1 = Q.quantized_linear(bits, integer, sym, keep_negative=kn, alpha=alpha)
       add("linear", cfg, q, xs, dict(qf=core.rj(qf)),
           label="quantized_linear(%d,%d,%d,keep_negative=%d,alpha=%s,qnoise_factor=%s)" % (bits, integer, sym, kn, alpha, qf),
-          surrogate=("linear_clip", (F32(lo), F32(hi), qf)), key=dict(cls="quantized_linear"))
-  # ---- quantized_linear with a data-dependent scale: the scale must be a constant for the gradient.
-  # 2-D input, per-column scale; column maxima are 7*2^k so that scale = max/7 = 2^k is exact; the other
-  # entries have non-zero rounding residues (a scale that leaks into the gradient contributes
-  # (round(x/s) - x/s) * ds/dx, so residues are what exposes it).  Expected gradient: identity everywhere.
+          surrogate=("linear_clip", (F32(lo), F32(hi), qf)), key=dict(cls="quantized_linear"),
+          mix=(qf, np.asarray(q1(tf.constant(xs)), dtype=np.float32), "identity"))
+  # ---- quantized_linear with a data-dependent scale ('auto' / 'auto_po2'): the scale enters under
+  # stop_gradient.  Per-column extreme = clip_range/2 * 2^k (keep_negative) or clip_max * 2^k, so that the
+  # scale 2^k is exact; non-symmetric / unsigned configurations then have elements OUTSIDE the clip range
+  # (the half step above clip_max, negative inputs of an unsigned quantizer): gradient 1 - qnoise_factor there.
   for alpha in ("auto", "auto_po2"):
-    q = Q.quantized_linear(4, 0, 1, keep_negative=True, alpha=alpha)
-    ks = [0, -2, 3]
-    cols = []
-    for k in ks:
-      codes = np.array([7, -7, 2.5, -1.25, 0.5, 5.25, -6.75, 2.25], dtype=np.float32)
-      rng.shuffle(codes)
-      cols.append(codes * np.float32(2.0 ** k))
-    x2 = np.stack(cols, axis=1).astype(np.float32)
-    xt = tf.constant(x2)
-    with tf.GradientTape() as tape:
-      tape.watch(xt)
-      y = q(xt)
-    g = np.asarray(tape.gradient(y, xt), dtype=np.float32)
-    yv = np.asarray(y, dtype=np.float32)
-    for idx in np.ndindex(x2.shape):
-      run.case(("linear_auto", alpha, idx, float(x2[idx])))
-      run.compared += 1
-      if float(g[idx]) != 1.0:
-        run.violate("grad_ste", dict(cls="quantized_linear", alpha=alpha, what="auto-scale leak"),
-                    {"config": "quantized_linear(4,0,1,alpha=%s) on a 2-D tensor with exact column scales" % alpha,
-                     "x": float(x2[idx]), "y": float(yv[idx]), "grad": float(g[idx]), "expected_grad": 1.0},
-                    mirrored=False)
-        break
-    run.count("op_linear_auto", x2.size)
+    for bits, sym, kn in [(4, 1, 1), (4, 0, 1), (3, 0, 0), (5, 1, 0), (1, 1, 1), (2, 0, 1)]:
+      for integer in (0, 2):
+        ub = bits - kn
+        if bits == 1 and kn:
+          cmin, cmax = F(-1, 2), F(1, 2)
+        else:
+          cmax = F(2 ** ub - 1)
+          cmin = F(-(2 ** ub) + sym) if kn else F(0)
+        top = float((cmax - cmin) / 2) if kn else float(cmax)
+        ks = [int(k) for k in rng.integers(-3, 4, size=3)]
+        x2 = crafted(3, 12, top, ks, signed_max=not kn)
+        w = po2w(x2.shape)
+        q1 = Q.quantized_linear(bits, integer, sym, keep_negative=kn, alpha=alpha)
+        y1 = np.asarray(q1(tf.constant(x2)), dtype=np.float32)
+        for qf in qfs:
+          q = Q.quantized_linear(bits, integer, sym, keep_negative=kn, alpha=alpha, qnoise_factor=float(qf))
+          ys, gs = grad_of(q, x2, w)
+          qs = np.broadcast_to(np.asarray(q.quantization_scale, dtype=np.float32), x2.shape)
+          label = ("quantized_linear(%d,%d,%d,keep_negative=%d,alpha=%s,qnoise_factor=%s) on a %s tensor"
+                   % (bits, integer, sym, kn, alpha, qf, "x".join(map(str, x2.shape))))
+          if not is_po2(qs):
+            run.count("linear_auto_scale_not_po2")
+          add("linear_s", dict(bits=bits, integer=integer, symmetric=bool(sym), keep_negative=bool(kn)), q, x2.ravel(),
+              dict(qf=core.rj(qf), qss=core.enc_list(qs.ravel())), label=label,
+              surrogate=("linear_clip_s", (cmin, cmax, qf, qs.ravel())),
+              key=dict(cls="quantized_linear", alpha=alpha),
+              pre=(ys.ravel(), gs.ravel()), mix=(qf, y1.ravel(), "identity"))
   # ---- quantized_relu
   for bits, integer, sl, iqc, upper in [(4, 1, None, True, None), (4, 1, 2, True, None), (4, 1, None, False, 1.5),
                                         (3, 0, 1, False, None), (4, 2, 3, False, 3.0), (6, 2, None, True, None)]:
@@ -168,7 +272,8 @@ def run(run: core.Run, tier: str):
             label="quantized_relu(%d,%d,negative_slope=%s,relu_upper_bound=%s,is_quantized_clip=%s,use_ste=%s,qnoise_factor=%s)"
             % (bits, integer, slope, upper, iqc, ste, qf),
             surrogate=("relu", (F(slope), None if b_eff is None else F32(b_eff), (F(1) if ste else 1 - qf))),
-            key=dict(cls="quantized_relu", use_ste=ste, qf_is_1=(qf == 1)))
+            key=dict(cls="quantized_relu", use_ste=ste, qf_is_1=(qf == 1)),
+            mix=(qf, xqs, (F(slope), None if b_eff is None else F32(b_eff))))
   # ---- quantized_tanh / quantized_sigmoid (hard and real surrogates)
   for bits, sym in [(4, 0), (3, 1)]:
     for cls, opn in (("quantized_tanh", "tanh"), ("quantized_sigmoid", "sigmoid")):
@@ -206,7 +311,7 @@ def run(run: core.Run, tier: str):
         add("po2", dict(), q, xs, dict(use_ste=ste, qf=core.rj(qf), xqs=core.enc_list(xqs)),
             label="quantized_po2(%d,%s,use_ste=%s,qnoise_factor=%s)" % (bits, mv, ste, qf),
             surrogate=("scaled_identity", (F(1) if ste else 1 - qf)),
-            key=dict(cls="quantized_po2", use_ste=ste, qf_is_1=(qf == 1)))
+            key=dict(cls="quantized_po2", use_ste=ste, qf_is_1=(qf == 1)), mix=(qf, xqs, "identity"))
   for bits, mv, slope in [(4, None, 0.0), (4, 2.0, 0.25), (4, None, 0.125), (3, 1.0, 0.0)]:
     for ste in (True, False):
       for qf in qfs:
@@ -218,7 +323,8 @@ def run(run: core.Run, tier: str):
             dict(use_ste=ste, qf=core.rj(qf), xqs=core.enc_list(xqs)),
             label="quantized_relu_po2(%d,%s,%s,use_ste=%s,qnoise_factor=%s)" % (bits, mv, slope, ste, qf),
             surrogate=("relu", (F(slope), None if mv is None else F32(mv), (F(1) if ste else 1 - qf))),
-            key=dict(cls="quantized_relu_po2", use_ste=ste, qf_is_1=(qf == 1)))
+            key=dict(cls="quantized_relu_po2", use_ste=ste, qf_is_1=(qf == 1)),
+            mix=(qf, xqs, (F(slope), None if mv is None else F32(mv))))
   # ---- binary / ternary
   for cls in ("binary", "ternary"):
     for alpha in (None, 1.0, 0.5, "auto", "auto_po2"):
@@ -236,6 +342,23 @@ def run(run: core.Run, tier: str):
           dict(xqs=core.enc_list(ys), ths=core.enc_list(np.asarray(th)), dths=core.enc_list(np.asarray(dth))),
           label="%s(alpha=%s)" % (cls, alpha),
           surrogate=("tanh" if alpha is None else "scaled_identity", F(1)), key=dict(cls=cls, alpha=str(alpha)))
+
+  for cls in ("binary", "ternary"):
+    for alpha in ("auto", "auto_po2"):
+      q = getattr(Q, cls)(alpha=alpha)
+      x2 = short_dyadics(rng, 24, -2, 2).reshape(8, 3) * np.array([1.0, 0.25, 4.0], dtype=np.float32)
+      x2 = np.where(x2 == 0, np.float32(0.5), x2).astype(np.float32)
+      w = po2w(x2.shape)
+      ys, gs = grad_of(q, x2, w)
+      xt = tf.constant(x2.ravel())
+      with tf.GradientTape() as tape:
+        tape.watch(xt)
+        th = tf.tanh(xt)
+      dth = tape.gradient(th, xt)
+      add("binter", dict(alpha_none=False), q, x2.ravel(),
+          dict(xqs=core.enc_list(ys.ravel()), ths=core.enc_list(np.asarray(th)), dths=core.enc_list(np.asarray(dth))),
+          label="%s(alpha=%s) on a 8x3 tensor" % (cls, alpha),
+          surrogate=("scaled_identity", F(1)), key=dict(cls=cls, alpha=str(alpha)), pre=(ys.ravel(), gs.ravel()))
 
   outs = core.run_driver("C06", lines)
   for m, o in zip(meta, outs):
@@ -265,7 +388,7 @@ def run(run: core.Run, tier: str):
       continue
     kind, par = sur
     all_zero = not any(float(g) != 0.0 for g in gs)
-    for x, g in zip(xs, gs):
+    for i, (x, g) in enumerate(zip(xs, gs)):
       fx, fg = F(float(x)), F(float(g))
       exp = None
       if kind == "scaled_identity":
@@ -281,6 +404,10 @@ def run(run: core.Run, tier: str):
         exp = F(1) if lo <= fx <= hi else 1 - qf
         if fx in (lo, hi):
           exp = None   # gradient of clip AT the bound is a TF convention, pinned by the tie only
+      elif kind == "linear_clip_s":
+        cmin, cmax, qf, qsv = par
+        r = fx / F(float(qsv[i]))
+        exp = F(1) if cmin < r < cmax else (1 - qf if (r < cmin or r > cmax) else None)
       elif kind == "tanh":
         exp = None
       elif kind in ("hard_tanh", "hard_sigmoid"):
@@ -292,5 +419,23 @@ def run(run: core.Run, tier: str):
     if all_zero and kind in ("scaled_identity", "relu"):
       run.violate("nonzero", dict(m["key"]), {"config": m["label"], "note": "gradient identically zero"},
                   mirrored=mirrored)
+    # ---- clause oracle on the real code: the forward value is the surrogate mixed with the quantized
+    # value by the noise factor, y == x_u + qf * (q(x) - x_u), q(x) = the same configuration at factor 1
+    if m["mix"] is not None:
+      qf, y1, xukind = m["mix"]
+      for x, y, yq in zip(xs, ys, y1):
+        fx = F(float(x))
+        if xukind == "identity":
+          xu = fx
+        else:
+          slope, bound = xukind
+          xu = bound if (bound is not None and fx > bound) else (fx if fx > 0 else slope * fx)
+        want = xu + qf * (F(float(yq)) - xu)
+        if F(float(y)) != want:
+          run.violate("value_mix", dict(m["key"], kind=kind),
+                      {"config": m["label"], "x": float(x), "y": float(y), "quantized_value_at_factor_1": float(yq),
+                       "expected_y": float(want), "qnoise_factor": str(qf)}, mirrored=mirrored)
+          break
+      run.count("clause_value_mix", len(xs))
   run.assumptions.append("TF autodiff conventions (clip inclusive, leaky-relu slope at 0, zero gradient of "
                          "round/sign, stop_gradient) are definitions of the dual-number calculus, validated by the tie")
